@@ -44,11 +44,11 @@ def life_stage(ck, tier, props, transform=None, tag="life", coherent_only=False,
     vecs = [v for v in vecs if any(PROP_OF.get(x["act"]) in want for x in v["hist"]) and (not coherent_only or v["L"]["mode"] == "coherent")]
     if limit:
         vecs = vecs[:limit]
-    entries = ["attr", "derive", "split"]
+    entries = ["attr", "derive", "split", "attr", "derive", "path2"]
     grnd = random.Random(dx.seed() + 11)
     mods, meta = [], []
     for i, v in enumerate(vecs):
-        entry, order = entries[i % 3], (i // 3) % 2
+        entry, order = entries[i % 6], (i // 3) % 2
         generic = i % 4 == 3          # one field of type G, instantiated with W: default bounds at work in a living program
         # syntactic guises: every second item is written with one or two spellings that mean the same
         g = grnd.sample(lf.GUISES, grnd.choice([1, 1, 2])) if i % 2 == 1 else []
